@@ -680,6 +680,17 @@ class FnAnalysis:
             return v
         v = ("ret", self.fn.path, bb)
         self._reg(v, dest_ty)
+        kind = name.rsplit("::", 1)[-1]
+        if name.startswith("core::slice::<impl [T]>::") and kind in ("chunks_exact", "windows", "chunks", "rchunks", "chunks_exact_mut") and len(args) == 2:
+            r = self.range_of(st, args[1])
+            if r[0] == r[1] and r[0] > 0:
+                self.__dict__.setdefault("chunk_n", {})[v] = (r[0], kind)
+        if kind == "next" and args and args[0] in self.__dict__.get("chunk_n", {}):
+            # elements of slice.chunks_exact(n) / windows(n) have exactly n items; of chunks(n) between 1 and n
+            n, ck = self.chunk_n[args[0]]
+            lt = ("len", ("someval", v))
+            self._reg(lt, "usize")
+            st.rng[lt] = (n, n) if ck in ("chunks_exact", "windows", "chunks_exact_mut") else (1, n)
         if target is not None:
             rr = eng.ret_range(target.path)
             if rr != (-INF, INF):
